@@ -2,6 +2,8 @@ package c15
 
 import (
 	"fmt"
+	"os"
+	"path/filepath"
 	"regexp"
 	"strings"
 	"testing"
@@ -16,6 +18,29 @@ import (
 	"verif/harness/pt"
 	"verif/harness/s3c"
 )
+
+// rawBucketName: a bucket that was not made through the gateway - a directory with a file in it, as an existing tree
+// put under a read-only gateway has them: no ACL, no attributes at all
+const rawBucketName = "bkt-raw"
+
+func rawBucket(sb *gw.Sandbox) error {
+	d := filepath.Join(sb.Root, rawBucketName)
+	if err := os.MkdirAll(filepath.Join(d, "dir"), 0o755); err != nil {
+		return err
+	}
+	for _, f := range []string{"obj1", "dir/nested"} {
+		if err := os.WriteFile(filepath.Join(d, f), []byte("data that was there before the gateway"), 0o644); err != nil {
+			return err
+		}
+	}
+	// the gateway process may run as another user: let it read (not write - it has no business writing)
+	return filepath.Walk(d, func(p string, _ os.FileInfo, err error) error {
+		if err == nil {
+			os.Chown(p, 64001, 64001)
+		}
+		return nil
+	})
+}
 
 func TestMain(m *testing.M) { pt.Main(m, false) }
 
@@ -91,6 +116,9 @@ func execA(c caseA) (v verdict, err error) {
 	defer rw.Shutdown()
 	fx, err := cat.Build(sb, rw, c.Versioning)
 	if err != nil {
+		return v, fmt.Errorf("SETUP: %v", err)
+	}
+	if err := rawBucket(sb); err != nil {
 		return v, fmt.Errorf("SETUP: %v", err)
 	}
 	ro, err := gw.StartInProc(gw.Config{SB: sb, Versioning: c.Versioning, Sidecar: c.Sidecar, ReadOnly: true})
@@ -177,6 +205,9 @@ func getProcWorld(versioning, sidecar bool) (*procWorld, error) {
 	if err != nil {
 		return nil, err
 	}
+	if err := rawBucket(sb); err != nil {
+		return nil, err
+	}
 	ro, err := gw.StartProc(gw.Config{SB: sb, Versioning: versioning, Sidecar: sidecar, ReadOnly: true})
 	if err != nil {
 		return nil, err
@@ -226,7 +257,7 @@ func genCase(t *rapid.T) caseA {
 			break
 		}
 	}
-	c.Spec.Bucket = rapid.SampledFrom(cat.BucketChoices).Draw(t, "bucket")
+	c.Spec.Bucket = rapid.SampledFrom(append([]string{"=" + rawBucketName}, cat.BucketChoices...)).Draw(t, "bucket")
 	c.Spec.Key = rapid.SampledFrom(cat.KeyChoices).Draw(t, "key")
 	c.Spec.Slash = rapid.IntRange(0, 3).Draw(t, "slash") == 0
 	if rapid.IntRange(0, 2).Draw(t, "src") == 0 {
